@@ -206,12 +206,15 @@ def splice_call(d, bi, h):
         blk["s"].append(["A", [loff + 1 + i, []], ["use", a], line, 0])
     dest, target = t[3], t[4]
     blk["t"] = ["goto", boff]
-    lf = lambda l: l + loff  # noqa: E731
+    # the helper's return place IS the call's destination when that is a plain local: every `_0 = …` of the helper then defines
+    # the destination on its own path (no merging copy through a shared return slot, which would blur path-sensitive rules)
+    direct = dest is not None and not dest[1] and d["locals"][dest[0]] == h["locals"][0]
+    lf = (lambda l: dest[0] if l == 0 else l + loff) if direct else (lambda l: l + loff)  # noqa: E731
     bf = lambda b: b + boff  # noqa: E731
     for hb in h["blocks"]:
         nb = {"s": [map_locals(s, lf) for s in hb["s"]], "c": hb.get("c", 0)}
         if hb["t"][0] == "ret":
-            if dest is not None:
+            if dest is not None and not direct:
                 nb["s"].append(["A", dest, ["use", ["m", [loff, []]]], line, 0])
             nb["t"] = ["goto", target] if target is not None else ["unreachable"]
         else:
@@ -247,8 +250,9 @@ def inline_new_functions(all_fns, old, notes, max_rounds=4):
                 continue
             if d["kind"] not in ("Fn", "AssocFn"):
                 continue
-            if any(direct_callee(b["t"]) == fid for b in d["blocks"]):
-                continue  # directly recursive
+            fam = [d] + [g for gid, g in all_fns.items() if gid.startswith(fid + "::{closure")]
+            if any(direct_callee(b["t"]) == fid for g in fam for b in g["blocks"]):
+                continue  # recursive (directly or through one of its own closures)
             new[fid] = d
         if not new:
             break
